@@ -5,6 +5,8 @@ CONSTANTS
   MinObjs = 1
   MaxKids = 2
   ExplicitNames = {"a"}
+  NamedInContainers = TRUE
+  Sharing = TRUE
   ListPolicies = {"iter", "rev"}
   SeqPolicies = {"call", "direct"}
   SubPolicy = TRUE
